@@ -352,6 +352,8 @@ def standard_trees(ctx, n_random, with_tests=True, eq_share=0.3):
             t = P.embed(rnd, P.like_pair(rnd), rnd.randint(0, 2)) if eq_share < 1 else P.like_pair(rnd)
         elif i % 9 == 2:
             t = P.embed(rnd, P.const_pair(rnd), rnd.randint(0, 2)) if eq_share < 1 else P.const_pair(rnd)
+        elif i % 9 in (8, 3):
+            t = P.embed(rnd, P.rare_forms(rnd), rnd.randint(0, 2)) if eq_share < 1 else P.rare_forms(rnd)
         elif i % 9 == 5:
             t = P.embed(rnd, P.unary_stack(rnd), rnd.randint(0, 2)) if eq_share < 1 else P.unary_stack(rnd)
         else:
